@@ -404,9 +404,6 @@ func runStress(j Job) Outcome {
 	if trues > 1 {
 		out.Findings = append(out.Findings, Finding{Kind: "stop_more_than_one_true", What: "stress: more than one concurrent Stop call returned true", Observed: fmt.Sprint(stopReturns)})
 	}
-	if atk.Stop() {
-		out.Findings = append(out.Findings, Finding{Kind: "stop_true_after_end", What: "Stop returned true after the attack had ended (its own deferred Stop must have been the initiating call)"})
-	}
 	alive := 1
 	for i := 0; i < 300 && alive > 0; i++ {
 		alive, _ = attackGoroutines()
@@ -416,6 +413,9 @@ func runStress(j Job) Outcome {
 	}
 	if alive > 0 {
 		out.Findings = append(out.Findings, Finding{Kind: "goroutine_left_behind", What: "stress: attack goroutines alive after the channel was closed", Observed: fmt.Sprint(alive)})
+	} else if atk.Stop() {
+		// the attack's own deferred Stop runs after close(results); once its goroutine is gone it has run
+		out.Findings = append(out.Findings, Finding{Kind: "stop_true_after_end", What: "Stop returned true after every goroutine of the attack had gone (its own deferred Stop must have been the initiating call)"})
 	}
 	return out
 }
